@@ -28,6 +28,8 @@ import (
 
 type Failure struct {
 	Seed   uint64          `json:"seed"`
+	Worker int             `json:"worker"`
+	Of     int             `json:"of"`
 	RunIdx int             `json:"run_index"`
 	Tape   []uint64        `json:"tape"`
 	Viol   *core.Violation `json:"violation"`
@@ -145,7 +147,7 @@ func worker(args []string) int {
 		if r.Viol != nil {
 			sigSeen[r.Viol.Signature]++
 			if sigSeen[r.Viol.Signature] <= 2 && len(wo.Failures) < 12 {
-				wo.Failures = append(wo.Failures, Failure{Seed: rs, RunIdx: j, Tape: append([]uint64(nil), tape.Vals...), Viol: r.Viol})
+				wo.Failures = append(wo.Failures, Failure{Seed: rs, Worker: *idx, Of: *of, RunIdx: j, Tape: append([]uint64(nil), tape.Vals...), Viol: r.Viol})
 			}
 		}
 	}
@@ -211,7 +213,15 @@ func (kf KnownFile) match(v *core.Violation) *KnownFinding {
 	return nil
 }
 
+// PreludeRun is an earlier run of the same worker process (generation-mode tape): some
+// violations depend on process-wide state left behind by the history of earlier runs.
+type PreludeRun struct {
+	Seed   uint64   `json:"seed"`
+	Forced []uint64 `json:"forced"`
+}
+
 type ReplayFile struct {
+	Prelude     []PreludeRun    `json:"prelude,omitempty"`
 	Tier        string          `json:"tier"`
 	Property    string          `json:"property"`
 	Engine      string          `json:"engine"`
@@ -366,6 +376,7 @@ func driver(args []string) int {
 		}
 	}
 	exit := 0
+	redoWithHistory := map[string]func() int{}
 	violations := 0
 	knownHit := map[string]bool{}
 	os.MkdirAll(filepath.Join(verifDir(), "replays"), 0o755)
@@ -381,22 +392,80 @@ func driver(args []string) int {
 				rr := execRun(p, core.NewReplayTape(vals), false)
 				return rr.Harness == "" && rr.Viol != nil && rr.Viol.Signature == sig
 			}
-			if !same(f.Tape) {
-				fmt.Fprintf(os.Stderr, "HARNESS-ERROR failure does not replay from its tape: %s (seed %d)\n", sig, f.Seed)
-				return 2
+			historyDependent := false
+			useHistory := func() int {
+				// not a function of its own tape: the violation depends on state left behind by
+				// earlier runs of the same worker process. Rebuild that history and minimise it.
+				var directed [][]uint64
+				if p.Directed != nil {
+					directed = p.Directed(*tier)
+				}
+				var prelude []PreludeRun
+				for j := f.Worker; j < f.RunIdx; j += f.Of {
+					var forced []uint64
+					if j < len(directed) {
+						forced = directed[j]
+					}
+					prelude = append(prelude, PreludeRun{Seed: runSeed(seed, p.ID, j), Forced: forced})
+				}
+				tryPrelude := func(pl []PreludeRun) bool {
+					tf := ReplayFile{Tier: *tier, Property: p.ID, Engine: p.Engine, Signature: sig, Tape: f.Tape, Prelude: pl}
+					tb, _ := json.Marshal(tf)
+					tpath := filepath.Join(tmp, "hist.json")
+					os.WriteFile(tpath, tb, 0o644)
+					cmd := exec.Command(self, "replay", "-file", tpath, "-quiet")
+					cmd.Env = append(os.Environ(), "GOMAXPROCS=1")
+					ob, _ := cmd.CombinedOutput()
+					return strings.Contains(string(ob), "REPRODUCED")
+				}
+				if !tryPrelude(prelude) {
+					fmt.Fprintf(os.Stderr, "HARNESS-ERROR failure does not replay from its tape nor from its process history: %s (seed %d)\n", sig, f.Seed)
+					return 2
+				}
+				// ddmin over the prelude (bounded)
+				evals := 0
+				for chunk := (len(prelude) + 1) / 2; chunk >= 1 && evals < 80; chunk /= 2 {
+					for i := 0; i+chunk <= len(prelude) && evals < 80; {
+						cand := append(append([]PreludeRun(nil), prelude[:i]...), prelude[i+chunk:]...)
+						evals++
+						if tryPrelude(cand) {
+							prelude = cand
+						} else {
+							i += chunk
+						}
+					}
+				}
+				rf.Prelude = prelude
+				rf.ShrinkEvals = evals
+				rf.Tape = f.Tape
+				rf.TapeLabels = nil
+				rf.Violation = f.Viol
+				rf.Observation = f.Viol.Observation
+				rf.Trace = []string{fmt.Sprintf("history-dependent: %d earlier runs of the same process are replayed first", len(rf.Prelude))}
+				historyDependent = true
+				return 0
 			}
-			var evals int
-			min, evals = core.Shrink(f.Tape, same, 1500)
-			rf.ShrinkEvals = evals
-			tp := core.NewReplayTape(min)
-			tp.Trace = true
-			rr := execRun(p, tp, true)
-			rf.Tape = tp.Vals
-			rf.TapeLabels = tp.Labels
-			rf.Trace = rr.Trace()
-			if rr.Viol != nil {
-				rf.Observation = rr.Viol.Observation
-				rf.Violation = rr.Viol
+			redoWithHistory[sig] = useHistory
+			if !same(f.Tape) {
+				if rc := useHistory(); rc != 0 {
+					return rc
+				}
+			}
+			var rr *core.Run
+			if !historyDependent {
+				var evals int
+				min, evals = core.Shrink(f.Tape, same, 1500)
+				rf.ShrinkEvals = evals
+				tp := core.NewReplayTape(min)
+				tp.Trace = true
+				rr = execRun(p, tp, true)
+				rf.Tape = tp.Vals
+				rf.TapeLabels = tp.Labels
+				rf.Trace = rr.Trace()
+				if rr.Viol != nil {
+					rf.Observation = rr.Viol.Observation
+					rf.Violation = rr.Viol
+				}
 			}
 		} else {
 			rf.Tape = min
@@ -409,10 +478,25 @@ func driver(args []string) int {
 		os.WriteFile(path, rb, 0o644)
 		// the minimised file must reproduce in a fresh process
 		if f.Viol.Oracle != "fatal" {
-			cmd := exec.Command(self, "replay", "-file", path, "-quiet")
-			cmd.Env = append(os.Environ(), "GOMAXPROCS=1")
-			if ob, err := cmd.CombinedOutput(); err == nil || !strings.Contains(string(ob), "REPRODUCED") {
-				fmt.Fprintf(os.Stderr, "HARNESS-ERROR minimised replay did not reproduce in a fresh process: %s\n%s\n", path, trimStack(string(ob)))
+			fresh := func() (bool, string) {
+				cmd := exec.Command(self, "replay", "-file", path, "-quiet")
+				cmd.Env = append(os.Environ(), "GOMAXPROCS=1")
+				ob, _ := cmd.CombinedOutput()
+				return strings.Contains(string(ob), "REPRODUCED"), string(ob)
+			}
+			ok, ob := fresh()
+			if !ok && len(rf.Prelude) == 0 {
+				// the driver's own process history helped the in-process replay: fall back to the
+				// worker's process history
+				if rc := redoWithHistory[sig](); rc != 0 {
+					return rc
+				}
+				rb, _ = json.MarshalIndent(rf, "", " ")
+				os.WriteFile(path, rb, 0o644)
+				ok, ob = fresh()
+			}
+			if !ok {
+				fmt.Fprintf(os.Stderr, "HARNESS-ERROR minimised replay did not reproduce in a fresh process: %s\n%s\n", path, trimStack(ob))
 				return 2
 			}
 		}
@@ -512,6 +596,9 @@ func replay(args []string) int {
 		return 2
 	}
 	props.SetTier(rf.Tier)
+	for _, pr := range rf.Prelude {
+		execRun(p, core.NewGenTape(pr.Seed, pr.Forced), false)
+	}
 	tp := core.NewReplayTape(rf.Tape)
 	tp.Trace = true
 	r := execRun(p, tp, true)
